@@ -31,6 +31,14 @@ def gen(rng, tier, no, wide=False):
     if rng.random() < 0.04:
         force["deep_queue"] = 1100          # more launches outstanding on one stream than any queue limit the tool knows of
     case = G.gen_case(rng, **force)
+    if rng.random() < 0.15:
+        # device copies that carry no correlation id (nothing in the trace launched them): they are not part of any
+        # queue, but they move bytes all the same
+        for ev in case["ranks"].values():
+            ms = [e for e in ev if e.get("cat") in ("gpu_memcpy", "gpu_memset") and isinstance(e.get("args"), dict)]
+            for e in rng.sample(ms, min(len(ms), rng.randint(1, 2))):
+                e["args"].pop("correlation", None)
+                e["args"].pop("External id", None)
     case["params"] = {"ranks": sorted(rng.sample(sorted(case["ranks"]), rng.randint(1, len(case["ranks"])))),
                       "gz": rng.random() < 0.5}
     return case
@@ -157,6 +165,7 @@ def oracle(case, obs) -> List[str]:
         return [f"analysis raised {c['raises']}"]
     out: List[str] = []
     for r, rows in obs["rows"].items():
+        rows = C.relink(rows)      # links by correlation id, not the implementation's column
         by_idx = {x[0]: x for x in rows}
         # linked pairs per stream, from the links
         pairs: Dict[int, List[List[int]]] = {}
